@@ -265,3 +265,45 @@ class FaultyWriter(io.StringIO):
             raise OSError(28, 'injected: no space left on device')
         self.nwrites += 1
         return super().write(s)
+
+
+def stage_with_hook(stage, res):
+    """The build-time stage argument for a case's 'stage' entry: after the original design is
+    complete somebody uses it -- simulates a cycle, exports it, analyses it, asks for an
+    optimized copy -- and only then is the rest added to the same Block. What PyRTL remembers
+    about the Block from that first use must not leak into what it does afterwards."""
+    if not stage:
+        return None
+    import io
+    import pyrtl
+    from . import transforms
+    use = stage.get('use', 'export')
+
+    def hook(built):
+        blk = built.block
+        try:
+            with transforms.quiet():
+                with pyrtl.set_working_block(blk, no_sanity_check=True):
+                    if use in ('sim', 'fast', 'compiled'):
+                        cls = {'sim': pyrtl.Simulation, 'fast': pyrtl.FastSimulation,
+                               'compiled': pyrtl.CompiledSimulation}[use]
+                        sim = cls(tracer=pyrtl.SimulationTrace('all', block=blk), block=blk)
+                        sim.step({w.name: 0 for w in blk.wirevector_subset(pyrtl.Input)})
+                    elif use == 'export':
+                        pyrtl.output_to_verilog(io.StringIO(), block=blk)
+                    elif use == 'analysis':
+                        pyrtl.TimingAnalysis(block=blk).max_length()
+                        for w in list(blk.wirevector_set)[:20]:
+                            if not isinstance(w, pyrtl.Output):
+                                pyrtl.fanout(w)
+                        str(blk)
+                    elif use == 'optimized_copy':
+                        pyrtl.optimize(update_working_block=False, block=blk)
+                    elif use == 'copy':
+                        pyrtl.copy_block(blk, update_working_block=False)
+                    else:
+                        raise HarnessError('stage use %r' % use)
+            res.faults.hit('used_before_extension:' + use)
+        except (pyrtl.PyrtlError, pyrtl.PyrtlInternalError):
+            res.probes.hit('early_use_refused:' + use)
+    return dict(stage, hook=hook)
